@@ -691,7 +691,7 @@ impl Session {
 
 /// Result types the typed batches (`tbatch <ty> <n>`) are instantiated with; `show` is what the
 /// harness prints for a decoded value (the model prints the same text, Driver/ClientFamily.lean `TVal.text`).
-pub trait TypedR: serde::de::DeserializeOwned + std::fmt::Debug + Send + 'static {
+pub trait TypedR: serde::de::DeserializeOwned + std::fmt::Debug + Clone + Send + 'static {
 	fn show(&self) -> String;
 }
 impl TypedR for u64 {
@@ -709,7 +709,7 @@ impl TypedR for bool {
 		self.to_string()
 	}
 }
-#[derive(serde::Deserialize, Debug)]
+#[derive(serde::Deserialize, Debug, Clone)]
 pub struct Pt {
 	pub x: u64,
 	pub y: u64,
@@ -732,7 +732,7 @@ pub const TYPED_KINDS: [&str; 5] = ["u64", "str", "bool", "pt", "optu64"];
 
 
 /// the accessors of a `BatchResponse` must tell one story: `len`, `iter`, the two counters, `ok()`
-fn batch_accessors_consistent<R: std::fmt::Debug>(r: &BatchResponse<'_, R>) -> bool {
+fn batch_accessors_consistent<R: std::fmt::Debug + Clone>(r: &BatchResponse<'_, R>) -> bool {
 	let n = r.iter().count();
 	let oks = r.iter().filter(|e| e.is_ok()).count();
 	let errs = n - oks;
@@ -740,7 +740,17 @@ fn batch_accessors_consistent<R: std::fmt::Debug>(r: &BatchResponse<'_, R>) -> b
 		Ok(it) => errs == 0 && it.count() == n,
 		Err(it) => errs > 0 && it.count() == errs,
 	};
-	r.len() == n && r.num_successful_calls() == oks && r.num_failed_calls() == errs && by_ok
+	// the consuming spelling of the same question, and the emptiness test
+	let by_into_ok = match r.clone().into_ok() {
+		Ok(it) => errs == 0 && it.count() == n,
+		Err(it) => errs > 0 && it.count() == errs,
+	};
+	let by_into_iter = r.clone().into_iter().count() == n;
+	r.len() == n
+		&& r.is_empty() == (n == 0)
+		&& r.num_successful_calls() == oks
+		&& r.num_failed_calls() == errs
+		&& by_ok && by_into_ok && by_into_iter
 }
 
 pub fn typed_batch_comp<R: TypedR>(r: &BatchResponse<'_, R>) -> Comp {
